@@ -430,7 +430,15 @@ class RoundTrip(common.Suite):
                     wrong = sorted(n for n, s in S.items() if s["kind"] not in (sub["kind"], "driver"))
                     if wrong:
                         cand.append(["rename", rng.choice(wrong)])
-                    c = emit(t, p, rng.choice(cand))
+                    mut = rng.choice(cand)
+                    node = node_at(t, p)
+                    empty_list_slot = any(sl["shape"] == "list" and not any(ch[0] == sl["name"] for ch in node[1])
+                                          for sl in sub["slots"])
+                    if mut[0] == "rename" and empty_list_slot:
+                        # the model's dictionaries carry a list-valued key only through its children; an EMPTY composite
+                        # renamed to another class is the one shape it cannot express (the real dictionary has `"operations": []`)
+                        mut = ["extra", "zzz_unexpected"]
+                    c = emit(t, p, mut)
                     if c:
                         out.append(c)
         return out
